@@ -2,7 +2,9 @@ package scen
 
 import (
 	"encoding/json"
+	"fmt"
 	"os"
+	"runtime"
 	"testing"
 	"time"
 
@@ -166,9 +168,18 @@ func search(t *testing.T, def *Def, job *Job, out *WorkerOut) {
 		}
 		seed := sim.Mix(job.Base, i)
 		cfg := def.Cfg
+		// wall-clock watchdog per run (real time, outside the bubble): a run that does not end is an
+		// infrastructure problem, reported with a goroutine dump, never a violation
+		wd := time.AfterFunc(3*time.Minute, func() {
+			buf := make([]byte, 1<<20)
+			n := runtime.Stack(buf, true)
+			fmt.Fprintf(os.Stderr, "WATCHDOG: run index %d seed %d of %s/%s did not finish within 3 minutes\n%s\n", i, seed, job.Prop, job.Family, buf[:n])
+			os.Exit(3)
+		})
 		keep := len(out.Samples) < 2
 		cfg.KeepTrace = keep
 		res := sim.Run(t, sim.NewSearchTape(seed), cfg, def.Build(job.Tier))
+		wd.Stop()
 		out.Runs++
 		out.Steps += int64(res.Steps)
 		out.SimNs += int64(res.SimTime)
